@@ -390,6 +390,12 @@ def gen_server_case(real, rng, cid, n_iter=50, n_clients=3, hostile=0.3, mtu=150
                     cl["born"] = k
                 elif cl["phase"] == "silent":
                     cl["idle"] += 1
+                    em = crun.eps[name]["emits"]
+                    if em and rng.random() < 0.25:
+                        # while the client is silent somebody keeps delivering copies of its old datagrams (duplicates inside the window,
+                        # stale ones outside it): they authenticate but are not news - the client must still be dropped on time
+                        kk = rng.randrange(max(0, len(em) - 40), len(em))
+                        items.append((cl["addr"], em[kk], "@%s:%d" % (name, kk)))
                     if cl["idle"] > rng.choice([30, 200, 400]):
                         clients[slot] = None          # the address may be used again by a fresh client
                     continue
